@@ -49,6 +49,10 @@ def run(repo: Repo, rep: Report, tier: str) -> None:
     ]
     sigs = [(f, priority_signature(f)) for f in sels]
     for f, sig in sigs:
+        unknown = [r for r in sig if r[0] == "unknown"]
+        if unknown:
+            # the normal form does not cover this coding idiom: that is a gap of the recogniser, not evidence of a different priority
+            raise AnalysisError(f"R5.1: {f.qualname} contains a construct the selector normal form does not cover: `{unknown[0][1]}`")
         sub = f"{f.module.relpath}:{f.qualname} priority signature"
         if sig == EXPECTED_SIG:
             rep.ok("R5.1", sub, "200, 201, 202, 204 (in that order, each over all responses), then other 2xx, then default, then first", f.loc())
